@@ -6,7 +6,7 @@ import traceback
 
 from tools import lib
 
-TRANSLATORS = ["tr_classes", "tr_elements", "tr_steps"]
+TRANSLATORS = ["tr_classes", "tr_elements", "tr_steps", "tr_formulas"]
 
 
 def regenerate_all():
